@@ -206,6 +206,10 @@ def explore_cases(ctx, drv, interp):
         if json.dumps(pl.canon(small), sort_keys=True) != json.dumps(pl.canon(large), sort_keys=True):
             ctx.fail("the two serialisations describe different models", replay, "fields-differ")
             continue
+        from .. import fam_numeric as fnum
+        if any("hybrid-tensorwise" in fnum.op_variant(ms, sg_, op_) for sg_ in ms.subgraphs for op_ in sg_.operators):
+            ctx.tag("interp_comparison_skipped_nondeterministic_runtime_D27")   # finding D27: results depend on uninitialised memory
+            continue
         d1 = interp.run(small, {k: v[:1] for k, v in case.data.items()})
         d2 = interp.run(large, {k: v[:1] for k, v in case.data.items()})
         ctx.interp_runs += 2
